@@ -27,6 +27,7 @@ type c06Case struct {
 	Attempts []c06Fault `json:"attempts"`
 	HoldMs   int        `json:"hold_ms"`
 	HeaderMs int        `json:"header_ms"`
+	VMID     bool       `json:"vm_identity,omitempty"`
 }
 
 type c06Result struct {
@@ -153,6 +154,15 @@ func C06(r *core.Run) {
 		id := fmt.Sprintf("s%d-%d", r.Seed, len(cases))
 		cases = append(cases, c06Case{ID: id, BodyLen: []int{10, 5000, 10, 3900, 65536}[i], Chunks: 1 + i, HeaderMs: hm,
 			Attempts: []c06Fault{{Kind: "refused", At: -2}, {Kind: "refused", At: -2}, {Kind: "refused", At: -2}}})
+	}
+	// rejections that are not 5xx (401 for an expired identity token, 403, 404, 429), with the proxy client wrapped as on a GCE VM and plain
+	for i, kind := range []string{"e401", "e401", "e403", "e404", "e429", "e401"} {
+		if r.Quick() && i >= 4 {
+			break
+		}
+		id := fmt.Sprintf("s%d-%d", r.Seed, len(cases))
+		cases = append(cases, c06Case{ID: id, BodyLen: []int{10, 3000, 65536, 10, 5000, 1 << 20}[i], Chunks: 1 + i%3, VMID: i%2 == 0,
+			Attempts: []c06Fault{{Kind: kind, At: []int{-1, 0, 100, -1, -1, 3000}[i]}, {Kind: "ok", At: -1}}})
 	}
 	// an early 5xx with a reply body from a proxy that then stops reading without closing, while a response far larger
 	// than the socket buffers is streaming: the handler must still be released
